@@ -23,7 +23,7 @@ impl HttpPrinter {
         let mut head = Vec::with_capacity(RESPONSE_HEAD_BUF_INIT_CAP);
 
         // status line
-        if status.code == 200 {
+        if status.code == 200 && status.reason == "OK" {
             head.extend_from_slice(b"HTTP/1.1 200 OK\r\n");
         } else {
             head.extend_from_slice(b"HTTP/1.1 ");
@@ -62,7 +62,7 @@ impl HttpPrinter {
         let mut head = Vec::with_capacity(RESPONSE_HEAD_BUF_INIT_CAP);
 
         // status line
-        if status.code == 200 {
+        if status.code == 200 && status.reason == "OK" {
             head.extend_from_slice(b"HTTP/1.1 200 OK\r\n");
         } else {
             head.extend_from_slice(b"HTTP/1.1 ");
@@ -223,7 +223,7 @@ fn build_response_head<R: Read>(
 ) -> Vec<u8> {
     let mut head = Vec::with_capacity(RESPONSE_HEAD_BUF_INIT_CAP);
 
-    if status.code == 200 {
+    if status.code == 200 && status.reason == "OK" {
         head.extend_from_slice(b"HTTP/1.1 200 OK\r\n");
     } else {
         head.extend_from_slice(b"HTTP/1.1 ");
